@@ -1589,7 +1589,8 @@ def _t_eval(target, _t, scope):
         elif op == '[':
             try:
                 cur = cur[arg]
-            except (KeyError, IndexError, TypeError) as e:
+            except (LookupError, TypeError, ValueError) as e:
+                # (ValueError: e.g. a slice with step 0)
                 pae = PathAccessError(e, Path(_t), i // 2)
         elif op == 'P':
             # Path type stuff (fuzzy match)
@@ -1662,7 +1663,9 @@ def _t_eval(target, _t, scope):
                     cur = ~cur
                 elif op == '_':
                     cur = -cur
-            except (TypeError, ZeroDivisionError) as e:
+            except (TypeError, ArithmeticError, ValueError, LookupError) as e:
+                # (OverflowError from ** or / on big numbers, ValueError and
+                # KeyError from % formatting, ...)
                 pae = PathAccessError(e, Path(_t), i // 2)
         if pae:
             raise pae
